@@ -209,6 +209,7 @@ func generate() {
 	genGroup1()
 	genGroup2()
 	genMoveCmd()
+	genCallSites()
 	genGroup3()
 	genAlias()
 	genMalformed()
